@@ -42,6 +42,7 @@ theorem trk_fields (m : C10St) (o : CObs) (hnb : ∀ bo, o ≠ .base bo) :
   | cancelCall a => simp [trk]
   | cbinReleased a => simp [trk]
   | probeCtx a i c => simp [trk]
+  | probeProm a h v e => simp [trk]
 
 theorem bInv_trk (b : St) (m : C10St) (o : CObs) (h : BInv b m) (hnb : ∀ bo, o ≠ .base bo) : BInv b (trk m o) := by
   obtain ⟨e1, e2, e3, e4, e5, e6⟩ := trk_fields m o hnb
@@ -192,6 +193,7 @@ theorem r0_step (s : CSt) (e : CEv) (s' : CSt) (m : C10St) (h : R0 s m) (hs : cs
         | goRel a => simp [CEv.obs] at hob
         | goCb a => simp [CEv.obs] at hob
         | probeCtx a i c => simp [CEv.obs] at hob
+        | probeProm a h v x => simp [CEv.obs] at hob
       | inv a op => exact bInv_trk _ m _ h1 (by simp)
       | cbin a i v => exact bInv_trk _ m _ h1 (by simp)
       | cbout a i r => exact bInv_trk _ m _ h1 (by simp)
@@ -199,6 +201,7 @@ theorem r0_step (s : CSt) (e : CEv) (s' : CSt) (m : C10St) (h : R0 s m) (hs : cs
       | cancelCall a => exact bInv_trk _ m _ h1 (by simp)
       | cbinReleased a => exact bInv_trk _ m _ h1 (by simp)
       | probeCtx a i c => exact bInv_trk _ m _ h1 (by simp)
+      | probeProm a h v x => exact bInv_trk _ m _ h1 (by simp)
   · subst he
     obtain ⟨pc1, l, f, sf, t, ht⟩ := hal.2 a0 c0 hc0
     rw [hth0] at ht; cases ht
